@@ -69,6 +69,35 @@ CHECKS = {
              "deferred ids, hashed / unhashed / map, 1-3 updates: every table equals the oracle's, every alias id reaches "
              "its class.",
         design="5/C10"),
+    "C12": dict(
+        technique="runtime monitor on generator output (parsed text vs installed offsets) + checked-policy fault injection on static offsets",
+        text="Exploration with fault injection: the real write_static_offsets output is parsed and compared position by "
+             "position with the installed slots and strides for arity 1-4; methods compiled with a static_offsets "
+             "specialisation dispatch with the generated numbers (compared with the oracle); under checked policies "
+             "each perturbed position must raise static_slot_error / static_stride_error; samples of the text are "
+             "compiled with g++ and clang++.",
+        design="5/C12"),
+    "C13": dict(
+        technique="runtime monitor: real decoder run on checked-iterator proxies (bounds, read-ahead) + behaviour comparison; sample texts compiled",
+        text="Exploration: the real encoder output is parsed and fed to the real decode_dispatch_data instantiated on a "
+             "Data of bounds-checked iterator proxies (per-array bounds, no store over an unread code) in a world that "
+             "forgot its installed tables; calls after decoding must equal calls after update; emitted texts compiled "
+             "verbatim by both compilers.",
+        design="5/C13"),
+    "C14": dict(
+        technique="runtime monitor: snapshot/compare of every other policy's observable state and behaviour around each operation",
+        text="Exploration: random interleavings of operations over 2-3 policies sharing class ids; the complete "
+             "observable state and behaviour of the untouched policies is compared before/after every operation.",
+        design="5/C14"),
+    "C15": dict(
+        technique="runtime fault enumeration: each class left out at each place, every argument route; error reports monitored",
+        category="fault_enumeration",
+        text="Fault enumeration: for generated registries each class in turn is left unregistered at each place it can "
+             "occur (listed base, method parameter, definition parameter, dynamic argument class at each virtual position) "
+             "and every argument route is driven under the checked policies; the handler must receive "
+             "unknown_class_error with that id (method_table_error for final) before any definition event or null "
+             "v-table pointer.",
+        design="5/C15"),
     "C17": dict(
         technique="runtime monitor: update report vs. exhaustive oracle enumeration of argument tuples",
         text="Exploration: the report returned by the real update is compared with an exhaustive enumeration of all "
